@@ -51,7 +51,7 @@ template< typename T ,typename U >T g( const T & t , U && u )const{ return stati
 int operator ( ) ( int a ) ; K & operator = ( const K& ) ; bool operator == ( const K &o )const;
 private: int m ; int n; } ;}
 int main( int argc,char * argv [ ] ){
-    std :: vector< std::pair< int,int > > v ; auto l = [ & ] ( int x ) -> int { return x*2 ; } ;
+    std :: vector< std::pair< int,int > > v ; auto l = [ & ] ( int x ) -> int { return x*2 ; } ; auto l0 = [ ] ( ) { return 1 ; } ; auto l1 = [] { return 2 ; } ; auto l2 = [  ] ( int y ) { return y ; } ;
     n :: K k ; k . g< int , long >( 1,2L ) ; K * pk = new K ( ) ; delete pk ; pk -> g ( 1 , 2 ) ;
     for ( auto & e : v ) { e . first ++ ; }
     try { throw 1 ; } catch ( int & e ) { } catch( ... ){ }
